@@ -138,7 +138,8 @@ MUTANTS = [
      "    def __param_tensors_unchanged(self):\n        return [id(param)",
      "    def __param_tensors_unchanged(self):\n        return True or [id(param)", 1),
     ("c17_objparams_alias_revert", "C17", "xitorch/grad/jachess.py",
-     "        self.objparams = list(fcn.objparams())\n", "        self.objparams = fcn.objparams()\n", 1),
+     "        self.objparams = list(fcn.objparams())\n", "        self.objparams = fcn.objparams()\n", 0),
+    # (equivalent since ced3e3e: objparams() builds a new list on every call, so there is nothing left to alias)
     ("c17_cache_ignores_objparams", "C17", "xitorch/grad/jachess.py",
      "               [id(param) for param in self.objparams] == self.id_objparams_tensor\n",
      "               True\n", 1),
